@@ -351,6 +351,11 @@ class Ref:
     def t_edit_dict(self, op, env):
         tbl = {"rxn": self.rxns, "met": self.mets, "gene": self.genes, "model": None}[op["kind"]]
         tgt = (self.__dict__ if tbl is None else tbl[op["id"]])[op["which"]]
+        if op.get("nested"):
+            if not isinstance(tgt.get(op["key"]), list):
+                return "unknown"
+            tgt[op["key"]] = list(tgt[op["key"]]) + [op["value"]]
+            return "ok"
         tgt[op["key"]] = copy.deepcopy(op["value"])
         return "ok"
 
@@ -682,6 +687,18 @@ class Ref:
     def t_remove_groups(self, op, env):
         for gid in op["ids"]:
             self.groups.pop(gid, None)
+        return "ok"
+
+    def t_readd_reaction(self, op, env):
+        spec = getattr(env, "readd_spec", None)
+        if spec is None or op["rid"] in self.rxns:
+            return "unknown"
+        x = copy.deepcopy(spec["x"])
+        for m in x["mets"]:
+            if m not in self.mets:
+                self.mets[m] = copy.deepcopy(spec["mets"][m])
+        self.rxns[op["rid"]] = x
+        self._ensure_genes(x["rule"])
         return "ok"
 
     def t_helper(self, op, env):
